@@ -431,7 +431,10 @@ KINDGROUP = {'def': 'pyfunc', 'meth': 'pyfunc', 'umeth': 'pyfunc', 'static': 'py
 
 
 def key_for(cfg, sig_stars, kind, mode, shape, exp, got):
-    return '%s|%s|%s|stars=%s|%s' % (cfg, KINDGROUP[kind], mode, sig_stars, e2.divclass(exp, got))
+    """Normalised root key: build | function-kind group | call path (keyword order / late binding collapsed) |
+    whether the signature has **kw | divergence class."""
+    mode = mode.replace('-rev', '').replace('-late', '')
+    return '%s|%s|%s|stars=%s|%s' % (cfg, KINDGROUP[kind], mode, '**' if '**' in sig_stars else '-', e2.divclass(exp, got))
 
 
 CONFIGS = {
